@@ -204,6 +204,12 @@ def matrix_cases(tier: str) -> list:
                     if fn == "save_result" and fmt not in (UNKNOWN_FORMAT, HALF_FORMAT):
                         # the folder spelling of the target (no extension), which every result format accepts
                         out.append({"fn": fn, "format": fmt, "state": state, "allow_overwrite": allow, "mode": "explicit", "spelling": "bare"})
+    for fn in SAVE_FUNCS:
+        fmts = [f for f in registered_formats(fn) if not f.startswith("verif")]
+        for state in ("file", "nonempty_dir"):
+            for fmt in fmts[:2]:
+                # ... after a save_result that failed half-way (unknown parameter format inside the folder plugin) in the same process
+                out.append({"fn": fn, "format": fmt, "state": state, "allow_overwrite": False, "mode": "explicit", "after_failed_save_result": True})
     return out
 
 
@@ -274,6 +280,14 @@ def prop_matrix(case):
                 (target / "sub").mkdir()
                 (target / "sub" / "deep.txt").write_bytes(b"precious deep content\n")
         payload = _payload(fn, src)
+        if case.get("after_failed_save_result"):
+            from glotaran.io import SavingOptions
+
+            try:
+                gio.save_result(payload if fn == "save_result" else _payload("save_result", src), tmp / "elsewhere" / "result.yml",
+                                saving_options=SavingOptions(parameter_format="verif_no_such_format"))
+            except Exception:  # noqa: BLE001  (expected: unknown parameter format)
+                pass
         known = fmt != UNKNOWN_FORMAT
         supported = known and fmt != HALF_FORMAT and _supported(fn, fmt)
         folder_target = fn == "save_result" and target.suffix not in (".yml", ".yaml")
@@ -292,7 +306,7 @@ def prop_matrix(case):
         except Exception as e:  # noqa: BLE001
             raised = e
         after = snapshot(work)
-        tags = [fn, f"format={fmt}", state, "overwrite" if allow else "protect", mode] + (["folder_spelling" if fn == "save_result" else "target_without_extension"] if case.get("spelling") == "bare" else []) + ([f"flag_{case['flag']}"] if case.get("flag") else [])
+        tags = [fn, f"format={fmt}", state, "overwrite" if allow else "protect", mode] + (["folder_spelling" if fn == "save_result" else "target_without_extension"] if case.get("spelling") == "bare" else []) + ([f"flag_{case['flag']}"] if case.get("flag") else []) + (["after_a_failed_save_result"] if case.get("after_failed_save_result") else [])
         where = f"{fn}(format={fmt!r}, {mode}) target={state} allow_overwrite={allow}"
         if protected and not allow:
             check(isinstance(raised, FileExistsError), "matrix.refuses",
@@ -993,6 +1007,9 @@ PROPERTY = Property(
                     f"oldest run of m: run numbers, listing, earlier runs unchanged and loadable (part {part + 1} of 3 by first operation)")
             for part in range(3)
         ],
+        Sub("runs_many", prop=prop_runs_enum, exhaustive=True,
+            enumerate=lambda tier: [{"focus": "runs", "steps": [{"op": "init"}] + [{"op": "optimize", "name": nm}] * (12 if tier == "quick" else 23)} for nm in ("m", "m_run_x")],
+            doc="12 (thorough: 23) runs under one result name: run numbers beyond 9 ('10' sorts before '9' as text), latest-run lookups, earlier runs unchanged"),
         *[
             Sub(f"handles_enum_{focus}", prop=prop_runs_enum, enumerate=lambda tier, focus=focus: handles_enum_cases(tier, focus), exhaustive=True,
                 doc="three Project handles opened on the same folder before the first run; every sequence of length 3 (quick; thorough 4) over "
